@@ -7,8 +7,8 @@ from . import geom
 
 SPEC = dict(
     technique='Lean 4 proof (unit twists = screw motions; regenerated model) + float monitor',
-    lean_modules=['SmVerif.Props.C18', 'SmVerif.Props.VecPreds', 'SmVerif.Props.TwistOps'],
-    groups=['Transforms3d', 'Transforms2d', 'TransformsNd', 'Vectors', 'Twists'],
+    lean_modules=['SmVerif.Props.C18', 'SmVerif.Props.VecPreds', 'SmVerif.Props.TwistOps', 'SmVerif.Props.Multi'],
+    groups=['Transforms3d', 'Transforms2d', 'TransformsNd', 'Vectors', 'Twists', 'Multi'],
     expected_untranslatable=('trinterp_T', 'trinterp_T_nostart'),
     partial=['accessor semantics (pitch, pole, line, isprismatic/isrevolute) and the traced constructors are proved; float agreement is explored'],
     assumptions=['agreement 1e-9·scale on generated inputs only'],
@@ -34,9 +34,11 @@ def _impl(tier, seed, search):
     def theta(g):
         r = g.random()
         if r < 0.3: return float(g.integers(-4, 5)) * math.pi / 2
+        if r < 0.42: return float(g.choice([-1, 1])) * 10.0 ** g.uniform(-8, -1)      # small non-zero angles
         return float(g.uniform(-2 * math.pi, 2 * math.pi))
     for i in range(n):
         a = geom.axis_scaled(g); ahat = a / np.linalg.norm(a)
+        if i % 8 == 3: a = ahat * (1 + float(g.choice([-1, 1])) * 10.0 ** g.uniform(-9, -5.1))     # direction that is unit only to 5..9 digits
         q = g.normal(size=3) * 10.0 ** g.uniform(-3, 3); q = np.clip(q, -1e3, 1e3)
         th = theta(g); qs = max(1.0, float(np.max(np.abs(q))))
         inp = dict(a=a, q=q, theta=th)
@@ -88,6 +90,22 @@ def _impl(tier, seed, search):
                     L.check('Twist3(multi)*k:len', len(got_) == 2, inp, 'multi-valued Twist3 * scalar does not keep the number of values', sig='Twist3(multi)*k')
                     if len(got_) == 2:
                         for g_, w_ in zip(got_, want_): L.close('Twist3(multi)*k', g_, w_, TOL, max(1.0, float(np.max(np.abs(w_)))), inp, sig='Twist3(multi)*k')
+            # several unit twists held by one object: pitch, theta and the parts are reported value by value
+            if i % 5 == 0:
+                def multi_q():
+                    axs_ = [geom.axis_scaled(g) for _ in range(3)]; qs_ = [np.clip(g.normal(size=3) * 10.0 ** g.uniform(-1, 2), -1e3, 1e3) for _ in range(3)]
+                    singles = [Twist3.Revolute(a_, q_) for a_, q_ in zip(axs_, qs_)]
+                    Sm = Twist3([x_.S for x_ in singles])
+                    return (np.asarray(Sm.pitch(), float), np.asarray(Sm.theta(), float), np.asarray(Sm.v, float), np.asarray(Sm.w, float),
+                            np.array([float(x_.pitch()) for x_ in singles]), np.array([x_.v for x_ in singles]), np.array([x_.w for x_ in singles]), max(1.0, float(np.max(np.abs(qs_)))))
+                ok2, r = L.noraise('Twist3(multi).pitch', multi_q, inp, 'pitch / theta / v / w of a multi-valued unit twist', sig='Twist3(multi):accessors:raises')
+                if ok2:
+                    L.check('Twist3(multi).pitch:len', np.shape(r[0]) == (3,), inp, f'pitch() of 3 twists has shape {np.shape(r[0])}', sig='Twist3(multi).pitch')
+                    if np.shape(r[0]) == (3,):
+                        L.close('Twist3(multi).pitch', r[0], np.zeros(3), TOL, r[7], inp, what='pitch of revolute unit twists held by one object is not 0 for each', sig='Twist3(multi).pitch')
+                        L.close('Twist3(multi).pitch=single', r[0], r[4], TOL, r[7], inp, sig='Twist3(multi).pitch')
+                    if np.shape(r[1]) == (3,): L.close('Twist3(multi).theta', r[1], np.ones(3), TOL, 1.0, inp, sig='Twist3(multi).theta')
+                    if np.shape(r[2]) == (3, 3): L.close('Twist3(multi).v', r[2], r[5], TOL, r[7], inp, sig='Twist3(multi).v'); L.close('Twist3(multi).w', r[3], r[6], TOL, 1.0, inp, sig='Twist3(multi).w')
             ok2, r = L.noraise('Revolute.exp(deg)', lambda: (S.exp(math.degrees(th), units='deg').A, S.exp(th).A), inp, 'S.exp(theta, units=deg)')
             if ok2: L.close('exp(deg)', r[0], r[1], TOL, max(1.0, geom.tmag(r[1])), inp)
             ths = [th, 0.0, -th / 2]
@@ -104,6 +122,9 @@ def _impl(tier, seed, search):
             ok2, T = L.noraise('Prismatic.exp', lambda: Pz.exp(th).A, dict(a=a, theta=th), 'Prismatic.exp(theta)')
             if ok2:
                 L.close('Prismatic:no-rotation', T[:3, :3], np.eye(3), TOL, 1.0, dict(a=a, theta=th)); L.close('Prismatic:translation', T[:3, 3], th * ahat, TOL, max(1.0, abs(th)), dict(a=a, theta=th))
+            ok2, r = L.noraise('Prismatic.theta', lambda: (Pz.theta(), (Pz * 2.5).theta(), Pz.inv().theta()), dict(a=a), 'Prismatic.theta()')
+            if ok2:
+                for r_ in r: L.close('Prismatic:theta=0', float(r_), 0.0, TOL, 1.0, dict(a=a), what='theta() of a prismatic twist (rotation magnitude) is not 0', sig='Prismatic:theta')
             ok2, r = L.noraise('Prismatic.predicates', lambda: (Pz.isprismatic, Pz.isrevolute), dict(a=a), 'predicates')
             if ok2:
                 L.check('Prismatic:isprismatic', bool(r[0]), dict(a=a), 'a prismatic twist is not reported prismatic'); L.check('Prismatic:not-revolute', not bool(r[1]), dict(a=a), 'a prismatic twist is reported revolute')
